@@ -26,14 +26,15 @@ def project(t):
             "finals": sorted(tag(s) for s in t.final_states), "delta": sorted(delta)}
 
 
-def build(hist, spool="q"):
+def build(hist, spool="q", outs=list):
+    """outs: the container type in which the output symbols are handed to add_transition (declared Iterable)"""
     sm = STATE_POOLS[spool]
     t = FST()
     spec = {"states": set(), "starts": set(), "finals": set(), "delta": []}
     for c in hist:
         if c[0] == "add_transition":
             a = "epsilon" if c[2] == "eps" else c[2]
-            t.add_transition(sm[c[1]], a, sm[c[3]], list(c[4]))
+            t.add_transition(sm[c[1]], a, sm[c[3]], outs(c[4]))
             spec["delta"].append([tag(sm[c[1]]), itag(a), tag(sm[c[3]]), [tag(x) for x in c[4]]])
             spec["states"].update([tag(sm[c[1]]), tag(sm[c[3]])])
         elif c[0] == "add_start_state":
